@@ -144,51 +144,45 @@ def funcEval (name : Str) (v : Int) : EvalRes :=
 /-- MAX_SYMBOL_DEPTH of expr.rs -/
 def maxSymbolDepth : Nat := 100
 
-/-- `Expr::run_nested`.  `fuel` bounds the recursion of the model itself; the Rust recursion is
-    bounded by the size of the expressions and MAX_SYMBOL_DEPTH. -/
-def run (c : Ctx) : Nat → Nat → Expr → EvalRes
-  | 0, _, _ => .oof
-  | f + 1, depth, e =>
-    match e with
-    | .ident name =>
-      match c.getExpr name with
-      | some (.const v) => .ok v
-      | some e' => if depth ≥ maxSymbolDepth then .err .tooDeep else run c f (depth + 1) e'
-      | none => .err .missingIdent
-    | .const v => .ok v
-    | .func (.ident name) arg =>
-      match run c f depth arg with
-      | .ok v => funcEval (lower name) v
-      | r => r
-    | .func _ _ => .err .notIdentFunc
-    | .bin op l r =>
-      match run c f depth l with
-      | .ok lv =>
-        match run c f depth r with
-        | .ok rv => binEval op lv rv
-        | x => x
+/-- the `match self` of `Expr::run_nested` with the `Ident` arm abstracted: `sym` is what an
+    identifier evaluates to.  Structural recursion over the expression, like the Rust code. -/
+def evalWith (sym : Str → EvalRes) : Expr → EvalRes
+  | .ident name => sym name
+  | .const v => .ok v
+  | .func (.ident name) arg =>
+    match evalWith sym arg with
+    | .ok v => funcEval (lower name) v
+    | r => r
+  | .func _ _ => .err .notIdentFunc
+  | .bin op l r =>
+    match evalWith sym l with
+    | .ok lv =>
+      match evalWith sym r with
+      | .ok rv => binEval op lv rv
       | x => x
-    | .un op e1 =>
-      match run c f depth e1 with
-      | .ok v => unEval op v
-      | x => x
+    | x => x
+  | .un op e1 =>
+    match evalWith sym e1 with
+    | .ok v => unEval op v
+    | x => x
 
-def exprSize : Expr → Nat
-  | .ident _ => 1
-  | .const _ => 1
-  | .func n a => exprSize n + exprSize a + 1
-  | .bin _ l r => exprSize l + exprSize r + 1
-  | .un _ e => exprSize e + 1
+/-- the `Ident` arm at `MAX_SYMBOL_DEPTH - k` nested symbol expansions: a constant is its value,
+    another expression is evaluated one level deeper, unless the depth limit is reached -/
+def symAt (c : Ctx) : Nat → Str → EvalRes
+  | 0, name =>
+    match c.getExpr name with
+    | some (.const v) => .ok v
+    | some _ => .err .tooDeep
+    | none => .err .missingIdent
+  | k + 1, name =>
+    match c.getExpr name with
+    | some (.const v) => .ok v
+    | some e' => evalWith (symAt c k) e'
+    | none => .err .missingIdent
 
-/-- fuel that suffices: every symbol expansion goes one level deeper (at most 101 levels), and
-    inside one level the recursion is bounded by the size of the largest expression around -/
-def Ctx.maxExprSize (c : Ctx) : Nat :=
-  let m := fun (l : List (Str × Expr)) => l.foldl (fun acc p => max acc (exprSize p.2)) 0
-  max (max (m c.defines) (m c.equs)) (max (m c.sets) (m c.special))
-
-def evalFuel (c : Ctx) (e : Expr) : Nat := (max (exprSize e) c.maxExprSize + 2) * (maxSymbolDepth + 2)
-
-def eval (c : Ctx) (e : Expr) : EvalRes := run c (evalFuel c e) 0 e
+/-- `Expr::run` : no fuel is needed — the Rust recursion is bounded by the expression size and
+    by MAX_SYMBOL_DEPTH, and so is this one -/
+def eval (c : Ctx) (e : Expr) : EvalRes := evalWith (symAt c maxSymbolDepth) e
 
 /-- `get_byte` : −128..255 → u8 -/
 def getByte (c : Ctx) (e : Expr) : EvalRes :=
